@@ -26,10 +26,10 @@ CLAIM = (
     "(thorough) from the import-time state is executed on the real config module; after every transition get() on the "
     "whole key universe in both '-'/'_' spellings equals a nested-dict reference model, refresh equals the merge of the "
     "accumulated defaults, rejected device requests leave device and store unchanged, and leaving `with set(...)` restores "
-    "the pre-entry values. Model checking is the right level because the property is about every history of a small state machine."
+    "the pre-entry values (also when one call writes the same entry twice, and for keys up to four levels deep); deeper histories are covered by deviation bounding (length 8, at most 1/2 positions replaced by any other event). Model checking is the right level because the property is about every history of a small state machine."
 )
 NOTE = (
-    "Trusted: the reference model in checks/C19.py (about 60 lines), the event alphabet (69 events over a 21-key universe) and the "
+    "Trusted: the reference model in checks/C19.py (about 60 lines), the event alphabet (about 80 events over a 25-key universe) and the "
     "depth bound; CPU-only sandbox, so accepted accelerator requests are not reachable; user and default value domains are disjoint."
 )
 RULE = (
